@@ -23,7 +23,7 @@ RULE = ('one evaluation = one (lexicon, selection) pair; lexicons are generated 
         'selection; non-trivial = at least one selected check has a non-empty must-set')
 ASSUMPTIONS = ['item keys are compared; context fields are only required to be mappings',
                'where duplicated identifiers make "the entity" ambiguous the must-set shrinks and the may-set grows (appendix A)']
-FLOORS = {'*': {'report.compared': 3000, 'check.nonempty-must': 3000, 'add.rejected': 20, 'cli.compared': 4}}
+FLOORS = {'*': {'report.compared': 3000, 'check.nonempty-must': 3000, 'add.rejected': 20, 'cli.compared': 4, 'cli.exit0-expected': 4}}
 N = {'quick': 160, 'thorough': 4000}
 
 
@@ -264,6 +264,28 @@ def run_case(case, rec):
                 e.setdefault('senses', [{'id': e['id'] + '-s', 'synset': good['synsets'][0]['id'], 'meta': None}])
             good_rep = validate(copy.deepcopy(good), progress_handler=None)
             good_clean = not any(good_rep[c]['items'] for c in good_rep)
+            # exit status 0 is reachable: the good lexicon alone, and this lexicon restricted to checks it passes
+            gp = wnio.write_resource({'lmf_version': v, 'lexicons': [good]}, work, random.Random(9), name='good.xml')
+            p = subprocess.run([sys.executable, '-m', 'wn', 'validate', str(gp)], capture_output=True, text=True, timeout=120)
+            rec.event('cli.compared')
+            if good_clean:
+                rec.event('cli.exit0-expected')
+            if (p.returncode == 0) != good_clean:
+                rec.violation('cli-exit-status', f'python -m wn validate on a lexicon whose report is {"empty" if good_clean else "not empty"} exits '
+                              f'{p.returncode}; stdout {p.stdout[-200:]} stderr {p.stderr[-200:]}')
+            passed = [c for c in full if not full[c]['items']]
+            failed = [c for c in full if full[c]['items']]
+            for codes, want0 in ((passed[:3], True), (passed[:2] + failed[:1], not failed)):
+                if not codes:
+                    continue
+                p = subprocess.run([sys.executable, '-m', 'wn', 'validate', '--select', ', '.join(codes), str(path)],
+                                   capture_output=True, text=True, timeout=120)
+                rec.event('cli.compared')
+                if want0:
+                    rec.event('cli.exit0-expected')
+                if (p.returncode == 0) != want0:
+                    rec.violation('cli-exit-status', f'python -m wn validate --select {codes} exits {p.returncode}, expected '
+                                  f'{"0" if want0 else "non-zero"} (checks with items: {failed}); stderr {p.stderr[-200:]}')
             for order in ([lex, good], [good, lex]):
                 mp = wnio.write_resource({'lmf_version': v, 'lexicons': order}, work, random.Random(9), name='multi.xml')
                 try:
